@@ -45,6 +45,10 @@ def _check(tag, viol, dist, disp, d_plain, H, ortho, tol):
     """dist (P,), disp (P,3) or None against the oracle for plain differences d_plain (P,3) under cell H"""
     v, m = oracle.mic(d_plain, H)
     wmin = oracle.widths(H).min()
+    # float32 error model of the kernel: the plain difference carries eps*|x|, and each of the ~|d|/w_min lattice shifts
+    # it subtracts adds eps*|cell| (the box vectors themselves are float32)
+    dmax = float(np.linalg.norm(d_plain, axis=1).max()) if len(d_plain) else 0.0
+    tol = tol + 8 * oracle.EPS32 * float(np.abs(H).max()) * (dmax / wmin)
     if disp is not None:
         res = oracle.lattice_residual(disp.astype(np.float64) - d_plain, H)
         # residual is in fractional units: scale tolerance by the shortest width
